@@ -253,6 +253,53 @@ def stage_partition(i, rec, root, ref):
     return [], 1
 
 
+# ------------------------------------------------------------------------------------------ parse echo (C13, C14)
+
+# one line per command, every optional clause once present and once left out, written from the README syntax table;
+# the expected transaction list is written out by hand (it is what Dsl.tla's Meaning gives for these lines)
+PARSE_LINES = ['2020-06-01 buy aaa 10 @ 5 usd fees 1.5', '2020-07-01\tSELL  AAA 4 @ 8   # sold', '# a note', '2020-07-02 DIVIDEND AAA TOTAL 3 TAX 0.5 EUR',
+               '2020-07-03 SPLIT AAA RATIO 2', '2020-07-04 CapReturn AAA 5 TOTAL 2.50 FEES 0', '2020-07-05 ACCUMULATION Bbb 5 TOTAL 2', '2020-07-06 UNSPLIT AAA RATIO 1.5']
+
+
+def _m(a, c='GBP'):
+    return {'amount': a, 'currency': c}
+
+
+PARSE_EXPECT = [
+    {'date': '2020-06-01', 'ticker': 'AAA', 'action': 'BUY', 'amount': '10', 'price': _m('5', 'USD'), 'fees': _m('1.5')},
+    {'date': '2020-07-01', 'ticker': 'AAA', 'action': 'SELL', 'amount': '4', 'price': _m('8'), 'fees': _m('0')},
+    {'date': '2020-07-02', 'ticker': 'AAA', 'action': 'DIVIDEND', 'total_value': _m('3'), 'tax_paid': _m('0.5', 'EUR')},
+    {'date': '2020-07-03', 'ticker': 'AAA', 'action': 'SPLIT', 'ratio': '2'},
+    {'date': '2020-07-04', 'ticker': 'AAA', 'action': 'CAPRETURN', 'amount': '5', 'total_value': _m('2.50'), 'fees': _m('0')},
+    {'date': '2020-07-05', 'ticker': 'BBB', 'action': 'ACCUMULATION', 'amount': '5', 'total_value': _m('2'), 'tax_paid': _m('0')},
+    {'date': '2020-07-06', 'ticker': 'AAA', 'action': 'UNSPLIT', 'ratio': '1.5'},
+]
+
+
+def stage_parse_echo(i, eol, root):
+    d = os.path.join(root, f'e{i}')
+    home = os.path.join(d, 'home')
+    os.makedirs(home)
+    sep = {'lf': '\n', 'crlf': '\r\n', 'cr': '\r'}[eol]
+    text = sep.join(PARSE_LINES) + (sep if i % 2 == 0 else '')
+    open(os.path.join(d, 'l.cgt'), 'w', newline='').write(text)
+    rc, so, se = run(d, home, ['parse', 'l.cgt'])
+    inp = repr(text)
+    if crashed(rc):
+        return [finding('C15', 'crash', f'cgt-tool parse crashed (exit {rc})', inp, i)], 1
+    if rc != 0:
+        return [finding(p, 'valid_rejected', f'cgt-tool parse refuses a valid file ({eol} line endings): {se[-300:].decode(errors="replace")}', inp, i) for p in ('C13',)], 1
+    try:
+        got = canon(json.loads(so))
+    except Exception:
+        return [finding('C15', 'incomplete_output', f'cgt-tool parse printed something that is not JSON: {so[:200]!r}', inp, i)], 1
+    if got != canon(PARSE_EXPECT):
+        k = next((j for j in range(min(len(got), len(PARSE_EXPECT))) if got[j] != canon(PARSE_EXPECT)[j]), min(len(got), len(PARSE_EXPECT)))
+        return [finding(p, 'parse_echo', f'cgt-tool parse ({eol} line endings) lists {len(got)} transactions, expected {len(PARSE_EXPECT)}; first difference at #{k + 1}: '
+                        f'{json.dumps(got[k]) if k < len(got) else None} vs {json.dumps(PARSE_EXPECT[k]) if k < len(PARSE_EXPECT) else None}', inp, i) for p in ('C13', 'C14')], 1
+    return [], 1
+
+
 # ------------------------------------------------------------------------------------------ driver
 
 _cache = {}
@@ -294,7 +341,8 @@ def cli_family(tier):
             raise common.ToolError(f'reference ledger for partitions does not report: {se[-300:]!r}')
         jobs = [(stage_pipeline, (i, r, root)) for i, r in enumerate(pipes)] + \
                [(stage_layering, (i, r, root, emb)) for i, r in enumerate(layers)] + \
-               [(stage_partition, (i, r, root, ref)) for i, r in enumerate(parts)]
+               [(stage_partition, (i, r, root, ref)) for i, r in enumerate(parts)] + \
+               [(stage_parse_echo, (i, eol, root)) for i, eol in enumerate(('lf', 'crlf', 'cr', 'cr', 'lf', 'crlf'))]
         with ThreadPoolExecutor(max_workers=16) as ex:
             for fs, n in ex.map(lambda j: j[0](*j[1]), jobs):
                 findings += fs
